@@ -33,6 +33,13 @@ TRUSTED = [
     "the data flow of Imputer's drift branch are regenerated and proved equal (Z: lia; PAA: "
     "field-wise up to == with independent case splits), for all arguments, to what the model is "
     "built from. Tie 2: the in-Coq correspondence run",
+    "normal-form facts the translator relies on to identify equivalent iteration forms (not "
+    "verified): iterating a sequence / ndarray = positional indexing 0..len-1, A[k, :] = A[k], "
+    "A.shape[0] = len(A), a row of a 2-d array (from_nested_to_2d_array(return_numpy=True), "
+    "np.zeros((a, b)), check_X(coerce_to_numpy=True).squeeze(1)) has length shape[1], "
+    "len(np.zeros((n, ..))) = n, assigning rows keeps the length, len(x.copy()) = len(x); leading "
+    "parameter names of np.full / zeros / pad / linspace / array_split / asarray / array and of "
+    "pandas fillna / interpolate / replace",
     "the library primitives are modelled, not verified: numpy slicing / np.full / "
     "np.pad(mode='edge') / np.array_split / np.hstack / as_strided windows, scipy interp1d(linear) "
     "on np.linspace grids, pandas fillna / interpolate(linear, nearest) / mean / median, statsmodels "
